@@ -303,12 +303,14 @@ func (sc *sweepCtx) sweep(w *writer, idx int) {
 	pt := w.pts[0]
 	sc.seq[pt]++
 	fin := newID()
+	// if it never arrives the session ended under the sweep (e.g. a timeout of the peer): writes
+	// to an ended session fail or return nil without sending, so only the clauses about what
+	// *was* seen on the wire can be decided for this sweep
 	alive := true
 	if err := w.rtp(buildRTP(rtpShapes[0], 24, fin, sc.seq[pt], pt, r)); err != nil {
-		sc.violation(sc.rtpKey(w, w.paths[0], "valid-write-refused"), fmt.Sprintf("a 24-byte RTP packet was refused: %v", err), nil)
+		alive = false
+		run.Inconclusive("closing packet of a sweep refused: " + vlib.Trunc(err.Error(), 40))
 	} else if !sc.mon.waitSeen(w.paths, fin, 5*time.Second) && !w.lossy {
-		// the session ended under the sweep (writes to a dead session return nil and send
-		// nothing): "accepted but not transmitted" cannot be decided for this sweep
 		alive = false
 		run.Inconclusive("closing packet of a sweep never reached the tap (session ended?)")
 	}
@@ -376,6 +378,7 @@ func (sc *sweepCtx) evaluate(w *writer, recs []writeRec, alive bool) {
 			}
 		}
 		switch {
+		case !alive:
 		case !should && accepted && !overOnWire:
 			sc.violation(keyf(w, w.paths[0], "oversize-write-accepted"), fmt.Sprintf("%s write (%s, plain size %d + overhead %d > %d) returned nil",
 				kindOf(rec.RTCP), rec.Kind, rec.Plain, rec.Overhead, max), wit)
@@ -640,7 +643,9 @@ func runClient(cfg config) {
 	var m *description.Media
 	var pts []uint8
 	if back {
-		pc, err := rig.NewPlayClient(ts, rig.ClientOpts{Name: "bc", Proto: cfg.Proto, MaxPacketSize: cfg.Max, HeldEvery: 1000, Mutate: mutate})
+		// nothing is written to the stream here: without a long read timeout the playing client
+		// would give up after 10 s without inbound packets
+		pc, err := rig.NewPlayClient(ts, rig.ClientOpts{Name: "bc", Proto: cfg.Proto, MaxPacketSize: cfg.Max, HeldEvery: 1000, Mutate: mutate, ReadTimeout: 20 * time.Minute})
 		if err != nil {
 			run.Fatal("client: %v", err)
 		}
